@@ -1,6 +1,7 @@
 package main
 
 import (
+	"strings"
 	"go/token"
 	"go/types"
 
@@ -22,6 +23,8 @@ func init() {
 			{"C15-R1", "endpoint before pod is replayed", c15r1},
 			{"C15-R2", "pod index maintenance", c15r2},
 			{"C15-R3", "kube registry lock discipline", c15r3},
+			{"C15-R4", "a slice's cached endpoints depend on that slice alone", c15r4},
+			{"C15-R5", "no queued event is dropped on the way to its handler", c15r5},
 		},
 	})
 }
@@ -277,4 +280,113 @@ func c15r3(c *Ctx) {
 		Exempt: map[string]string{"pilot/pkg/serviceregistry/kube/controller.NewController": "constructor"},
 	})
 	c.Floor(30)
+}
+
+
+// C15-R4: the EndpointSlice cache holds, per service and slice, what the LAST write of THAT slice said; duplicates across
+// slices are resolved when reading. update() therefore writes only the entry of the slice it was called for. A write
+// into another slice's entry makes the registry depend on the order in which slices were written and cannot be undone
+// by a later write of the first slice alone (the final objects no longer determine the endpoints).
+func c15r4(c *Ctx) {
+	p := c.P
+	fn := p.Func(pkgKubeCtl, "endpointSliceCache", "update")
+	slice := paramNamed(fn, "slice")
+	n := 0
+	eachInstr(fn, func(ins ssa.Instruction) {
+		mu, ok := ins.(*ssa.MapUpdate)
+		if !ok {
+			return
+		}
+		// the inner map: keyed by slice name, holding endpoint lists
+		mt, ok := mu.Map.Type().Underlying().(*types.Map)
+		if !ok {
+			return
+		}
+		if _, isSlice := mt.Elem().Underlying().(*types.Slice); !isSlice {
+			return
+		}
+		n++
+		c.Check("endpointSliceCache.update writes only the entry of its own slice", mu.Pos(), mu.Key == ssa.Value(slice),
+			"update() stores endpoints under a slice name other than the one it was called for: the cached content of a slice then depends on which other slice was written later, and an address still listed by a final slice can be missing from the registry")
+	})
+	// the read side resolves duplicates
+	get := p.Func(pkgKubeCtl, "endpointSliceCache", "get")
+	dedupes := false
+	eachInstr(get, func(ins ssa.Instruction) {
+		if o := calleeObj(ins); o != nil && (o.Name() == "InsertContains" || o.Name() == "Contains") {
+			dedupes = true
+		}
+	})
+	c.Check("endpointSliceCache.get resolves duplicates across slices when reading", get.Pos(), dedupes, "get() concatenates the slices without de-duplicating endpoints listed by more than one slice")
+	c.Check("endpointSliceCache.update stores the slice", fn.Pos(), n >= 1, "no write of the per-slice entry found")
+	c.Floor(3)
+}
+
+// C15-R5: registerHandlers wraps every resource handler; the wrapper refreshes the object from the informer and calls the
+// handler. The only path on which it returns without calling the handler is "the object is gone from the informer"
+// (the delete event follows). Any other early return drops an event whose (old, new) pair the handler needs - e.g. a
+// label change whose follow-up heartbeat update carries identical old and new labels.
+func c15r5(c *Ctx) {
+	p := c.P
+	var wrap *ssa.Function
+	n := 0
+	for _, fn := range p.AllFuncs {
+		if funcPkgPath(fn) != istioMod+"/"+pkgKubeCtl || fn.Parent() == nil {
+			continue
+		}
+		root := fn.Parent()
+		if !strings.HasPrefix(root.Name(), "registerHandlers") || fn.Signature.Params().Len() != 3 {
+			continue
+		}
+		// the wrapper: calls the captured `handler`
+		callsHandler := func(ins ssa.Instruction) bool {
+			ci, ok := ins.(ssa.CallInstruction)
+			if !ok {
+				return false
+			}
+			v := ci.Common().Value
+			if u, ok := v.(*ssa.UnOp); ok {
+				v = u.X
+			}
+			fv, ok := v.(*ssa.FreeVar)
+			return ok && fv.Name() == "handler"
+		}
+		has := false
+		eachInstr(fn, func(ins ssa.Instruction) {
+			if callsHandler(ins) {
+				has = true
+			}
+		})
+		if !has {
+			continue
+		}
+		if wrap != nil && wrap.Origin() == fn.Origin() && fn.Origin() != nil {
+			continue // one instance per generic origin
+		}
+		wrap = fn
+		n++
+		// "object gone" edges: IsNil(<informer.Get result>) is true
+		var gone []Edge
+		for _, i := range allIfs(fn) {
+			v, neg := stripNot(i.Cond)
+			if call, ok := v.(*ssa.Call); ok {
+				if o := calleeObj(call); o != nil && o.Name() == "IsNil" {
+					idx := 0
+					if neg {
+						idx = 1
+					}
+					gone = append(gone, Edge{i.Block(), idx})
+				}
+			}
+		}
+		bad, found := pathAvoidingE(fn.Blocks[0], nil, callsHandler, isReturn, gone, nil)
+		pos := fn.Pos()
+		if bad != nil {
+			pos = bad.Pos()
+		}
+		c.Check("handler wrapper calls the handler on every path except 'object gone': "+stableFnName(root), pos, !found,
+			"the wrapper around the resource handlers can return without calling the handler although the object still exists: that event's (old, new) pair is lost - e.g. a label edit immediately followed by a heartbeat is handled as old==new, the service for the pod is never recomputed, and the registry keeps state a cold start would not produce")
+	}
+	c.Check("registerHandlers wrapper found", token.NoPos, n >= 1, "the handler wrapper in registerHandlers was not recognised")
+	c.Floor(2)
 }
